@@ -9,7 +9,7 @@ package forkexec
 // becomes -1) and nextfd lies above the list length and above every listed number.
 //@ func pkg/forkexec.prepareFds props C06
 //@   arith int
-//@   requires #int forall k int :: 0 <= k && k < len(files) ==> files[k] < 2147483648 || files[k] == 18446744073709551615
+//@   requires #int forall j int :: soff(files) <= j && j < soff(files) + len(files) ==> cell(files, j) < 2147483648 || cell(files, j) == 18446744073709551615
 //@   assigns nothing
 //@   ensures len(result.0) == len(files) && fresh(result.0) && soff(result.0) == 0
 //@   ensures forall k int :: 0 <= k && k < len(files) ==> (files[k] == 18446744073709551615 ==> result.0[k] == -1) && (files[k] != 18446744073709551615 ==> result.0[k] == files[k])
@@ -47,7 +47,7 @@ package forkexec
 //@ func pkg/forkexec.forkAndExecInChild props C03 C04 C05 C06 C07 C08
 //@   arith int bv
 //@   requires r != nil
-//@   requires #int forall k int :: 0 <= k && k < len(r.Files) ==> r.Files[k] < 2147483648 || r.Files[k] == 18446744073709551615
+//@   requires #int forall j int :: soff(r.Files) <= j && j < soff(r.Files) + len(r.Files) ==> cell(r.Files, j) < 2147483648 || cell(r.Files, j) == 18446744073709551615
 //@   requires 0 <= p[0] && p[0] < 2147483648 && 0 <= p[1] && p[1] < 2147483648 && p[0] != p[1]
 //@   requires r.ExecFile < 2147483648 && len(r.Files) < 1048576
 //@   requires len(argv) >= 1 && len(env) >= 1
@@ -190,9 +190,9 @@ package forkexec
 
 //@ func pkg/forkexec.prepareExec props C10 C15
 //@   arith int
-//@   requires len(Args) >= 1
 //@   assigns nothing
 //@   ensures result.3 == nil ==> len(result.1) >= 1 && len(result.2) >= 1
+//@   ensures len(Args) == 0 ==> result.3 != nil
 
 //@ func pkg/forkexec.syscallStringFromString
 //@   arith int
@@ -211,6 +211,8 @@ package forkexec
 //@   requires childErr != nil
 //@   assigns object(childErr)
 //@   ensures err == nil ==> 0 <= n && n <= 24
+//@   abstracts err == nil ==> n == 0 || n == 8 || n == 24
+//@   abstracts err == nil && n == 24 ==> childErr.Err != 0
 //@   loop 0: invariant true
 
 //@ func pkg/forkexec.handlePipeError props C07
@@ -243,6 +245,8 @@ package forkexec
 //@   ensures @C07 result.1 != nil ==> result.0 == 0
 //@   ensures @C07 result.1 == nil ==> (result.0 == pid && W.kill_count == old(W.kill_count)) || (result.0 == 0 && W.kill_pid == pid && W.reaped[pid])
 //@   ensures @C10 S.cb_calls == old(S.cb_calls) || S.cb_calls == old(S.cb_calls) + 1
+//@   ensures @C10 r.SyncFunc == nil ==> S.cb_calls == old(S.cb_calls)
+//@   ensures @C10 @C07 result.1 == nil && r.SyncFunc != nil ==> S.cb_calls == old(S.cb_calls) + 1
 //@   ensures @C10 S.cb_calls == old(S.cb_calls) ==> P.st == old(P.st)
 //@   ensures @C10 S.cb_calls == old(S.cb_calls) + 1 && old(P.st) == 2 ==> (result.1 == nil ==> P.st == 5) && (result.1 != nil ==> P.st == 4 || P.st == 5 || P.st == 9)
 //@   ensures @C10 S.cb_calls == old(S.cb_calls) + 1 && old(P.st) != 2 ==> P.st == old(P.st)
@@ -256,11 +260,14 @@ package forkexec
 
 //@ func pkg/forkexec.(*Runner).Start props C07 C10 C12
 //@   arith int
-//@   requires len(r.Args) >= 1
-//@   requires forall k int :: 0 <= k && k < len(r.Files) ==> r.Files[k] < 2147483648 || r.Files[k] == 18446744073709551615
+//@   requires forall j int :: soff(r.Files) <= j && j < soff(r.Files) + len(r.Files) ==> cell(r.Files, j) < 2147483648 || cell(r.Files, j) == 18446744073709551615
 //@   requires r.ExecFile < 2147483648 && len(r.Files) < 1048576
 //@   requires forall j int, k int :: 0 <= j && j < k && k < len(r.Mounts) ==> r.Mounts[j].Target != r.Mounts[k].Target
 //@   requires forall k int :: 0 <= k && k < len(r.Mounts) ==> r.Mounts[k].Target != nil && r.Mounts[k].Flags & 32 == 0 && r.Mounts[k].Target != elemaddr(slash, 0)
+//@   assigns P.st, S.cb_calls, W.kill_pid, W.kill_count, W.reaped, FD.closed, FD.handed, K.fdt, K.clo, K.pid, K.secbits, K.caps_empty, K.nnp, K.filter, K.filter_flags, K.uid, K.uid_set, K.gid, K.gid_set, K.groups_set, K.ngroups, K.groups_ptr, K.sid_new, K.ctty, K.cwd, K.host, K.hostlen, K.host_issued, K.domain, K.domainlen, K.domain_issued, K.clone_flags, K.clone3, K.clone_cgroup, K.mnt_src, K.mnt_type, K.mnt_flags, K.mnt_data, K.mnt_done, K.remount, K.remount_done, K.nmount, K.pivoted, K.pivot_new, K.pivot_old, K.old_detached, K.old_removed, K.rl_cur, K.rl_max, K.rl_set, K.traceme, K.stopped_self, K.sync_stage, K.sync_wfile, K.sync_rfile, K.idmap_read, K.unshare_cgroup_issued, K.last_trap, K.last_errno, K.reported, K.reported_loc, K.reported_err, K.reported_idx, K.exec_attempts
+//@   ensures @C10 r.SyncFunc == nil ==> S.cb_calls == old(S.cb_calls)
+//@   ensures @C10 @C07 result.1 == nil && r.SyncFunc != nil ==> S.cb_calls == old(S.cb_calls) + 1
+//@   invokes r.SyncFunc when S.cb_calls == old(S.cb_calls) + 1
 //@   ensures @C07 result.1 != nil ==> result.0 == 0
 //@   ensures @C10 S.cb_calls == old(S.cb_calls) || S.cb_calls == old(S.cb_calls) + 1
 //@   ensures @C10 S.cb_calls == old(S.cb_calls) ==> P.st == old(P.st)
